@@ -112,8 +112,20 @@ fn o_hist(h: &crate::history::Hist<SpelledCase>, st: &mut Stats) -> Result<(), S
     crate::history::judge(h, &s, o_spelled, st)
 }
 
+fn o_session(s: &crate::history::Session<String>, st: &mut Stats) -> Result<(), String> {
+    crate::history::judge_session(s, o_string, st)
+}
+
 pub fn sections() -> Vec<Box<dyn Section>> {
     vec![
+        Box::new(Random {
+            name: "sessions-of-strings".into(),
+            quick: 60,
+            thorough: 2000,
+            strategy: Box::new(|_| crate::history::gsession(prop_oneof![3 => gspelled().prop_map(|c| spell(&c.tuple, &c.choices).assemble()), 2 => gsoup(), 1 => gcorpus_mut(), 2 => gfault().prop_map(|f| inject(&f).map(|x| x.text).unwrap_or_default())].boxed())),
+            oracle: o_session,
+            required: vec!["judged inside a session", "session of 1000 or more cases"],
+        }),
         Box::new(Random {
             name: "spelled-after-a-prelude".into(),
             quick: 16_000,
